@@ -483,6 +483,10 @@ class CircuitOperation(ops.Operation):
                 args += 'use_repetition_ids=True,\n'
             else:
                 args += f'repetition_ids={proper_repr(self.repetition_ids)},\n'
+        elif self.repetition_ids is not None:
+            # Explicit ids that are kept (and compared) although they are not used.
+            args += f'repetition_ids={proper_repr(self.repetition_ids)},\n'
+            args += 'use_repetition_ids=False,\n'
         if self.repeat_until:
             args += f'repeat_until={self.repeat_until!r},\n'
         indented_args = args.replace('\n', '\n    ')
